@@ -1023,6 +1023,14 @@ def elementwise(I, op, a, b, cmp=False):
         if op in ("BitAnd", "BitOr"):
             return And(x, y) if op == "BitAnd" else Or(x, y)
         ctx.in_quant += 0
+        if op == "Div":
+            try:
+                return pure_arith(I, op, x, y)
+            except SymRaise as e:
+                # numpy does not raise for a zero divisor inside an array expression (the element becomes inf / nan):
+                # marked, so that the engine can turn the path into a refutable obligation instead of an exception
+                e.array_div = True
+                raise
         return pure_arith(I, op, x, y)
     if isinstance(a, SList):
         a = ops.arr_from_items(a.items)
